@@ -34,6 +34,7 @@ bool op_is_factory(int code)
    code = ((code % OP_COUNT) + OP_COUNT) % OP_COUNT;
    switch (code) {
    case OP_expr_list_push_back: case OP_general_subst: case OP_block_add_stmt: case OP_handler_add_stmt: case OP_closure_add_capture:
+   case OP_get_string_huge: case OP_macro_var: case OP_macro_function: case OP_macro_class: case OP_macro_template: case OP_macro_stmt_tree:
    case OP_new_token: case OP_set_decl_fields: case OP_set_stmt_fields: case OP_set_loop_fields: case OP_set_expr_fields:
    case OP_set_udt_fields: case OP_set_form_fields: case OP_set_directive_fields: case OP_set_callable_fields: case OP_set_unit_fields:
    case OP_noise_alloc: case OP_noise_free:
@@ -206,6 +207,7 @@ Ref World::reg_ref(Ref r, Reading exp, bool generative, ObserveFn fn)
       rc.exp = exp;
       rc.observe = fn;
       rc.born = step;
+      rc.seq = ++next_seq;
       rc.maker = current_op;
       rc.generative = generative;
       recs.emplace(r, std::move(rc));
@@ -338,7 +340,7 @@ bool World::region_sealed(const ipr::Region& r)
    return false;
 }
 
-bool World::can_seal_as_body(const ipr::Type& udt, uint32_t user_born)
+bool World::can_seal_as_body(const ipr::Type& udt, uint64_t user_seq)
 {
    // Termination argument for printing (DESIGN.md, C17/C18): every link the harness creates goes from a node to an
    // older one, except (i) a user-defined type -> its members and (ii) a body printer (a typedecl initialised with the
@@ -353,7 +355,7 @@ bool World::can_seal_as_body(const ipr::Type& udt, uint32_t user_born)
          if (sm == scopes.end()) continue;
          for (auto& de : sm->second.decls) {
             Rec* rc = rec(nref(*de.decl));
-            if (rc == nullptr or rc->born >= user_born) return false;
+            if (rc == nullptr or rc->seq >= user_seq) return false;
          }
       }
    }
@@ -361,7 +363,7 @@ bool World::can_seal_as_body(const ipr::Type& udt, uint32_t user_born)
       if (h.owner_node != static_cast<const ipr::Node*>(&udt)) continue;
       for (auto& de : h.decls) {
          Rec* rc = rec(nref(*de.decl));
-         if (rc == nullptr or rc->born >= user_born) return false;
+         if (rc == nullptr or rc->seq >= user_seq) return false;
       }
    }
    return true;
@@ -830,6 +832,7 @@ Ref World::dispatch(const Op& op)
    if (code < OP_make_phantom) return code < OP_get_string ? apply_exprs(op) : apply_names_types(op);
    if (code < OP_make_break) return apply_exprs(op);
    if (code < OP_new_unit) return apply_stmts_decls(op);
+   if (code > OP_noise_free) return apply_macros(op);
    return apply_forms_misc(op);
 }
 
